@@ -52,6 +52,7 @@ func (bucket *Bucket) Close(_ context.Context) {
 	traceEnter("Bucket.Close", "%s", bucket)
 
 	unregisterBucket(bucket)
+	verifPoint("close.unregistered", bucket.name)
 
 	bucket.mutex.Lock()
 	defer bucket.mutex.Unlock()
@@ -73,8 +74,10 @@ func (bucket *Bucket) _closeSqliteDB() {
 
 // Closes a bucket and deletes its directory and files (unless it's in-memory.)
 func (bucket *Bucket) CloseAndDelete(ctx context.Context) (err error) {
+	verifPoint("closedelete.enter", bucket.name)
 	bucket.mutex.Lock()
 	defer bucket.mutex.Unlock()
+	verifPoint("closedelete.locked", bucket.name)
 	bucket._closeSqliteDB()
 	return deleteBucket(ctx, bucket)
 }
